@@ -104,7 +104,7 @@ def run_models(oc, tier, workdir):
     base = open(os.path.join(V.SPEC, "Minimize.cfg")).read()
     shared = open(os.path.join(V.SPEC, "Minimize_shared.cfg")).read()
     live = open(os.path.join(V.SPEC, "Minimize_live.cfg")).read()
-    jobs = [("max_iter=4, one run", base, 2, 900, None), ("max_iter=2, two runs fresh/shared", shared, 2, 900, None),
+    jobs = [("max_iter=4, one run", base, 4, 900, None), ("max_iter=2, two runs fresh/shared", shared, 3, 900, None),
             ("Termination (temporal), max_iter=2", live, 1, 900, None)]
     if tier == "thorough":
         jobs.append(("max_iter=3, two runs fresh/shared", shared.replace("MaxIter = 2", "MaxIter = 3"), 4, 2400, None))
